@@ -7,6 +7,10 @@
   the two passes fused (`ALV.Model.C16`);  `srun` — the specification (`ALV.Spec.C16`: a log of
   events with closed-form start times and a closed-form sum).  The theorems below are about
   `prun`, the machine the driver runs against the real code.
+
+  Round 5: a fourth layer above `prun` — `ALV.Gen.C16` (lean/ALV/Gen/C16Src.lean), the same machine REGENERATED from
+  the text of audiolazy/lazy_stream.py by harness/props/c16_tr.py on every check; `src_*_is_model` (end of this file)
+  prove it equal to the hand-written one, `source_streamix_eq_spec` states the property about it.
 -/
 import ALV.Lemmas.C16Main
 import ALV.Lemmas.C16Gen
